@@ -90,6 +90,7 @@ fn semantics(ch: &mut Choices, case: &mut Case) -> Result<(), String> {
         dense: ch.chance(50),
         repeats: false,
         max_day_offset: 10,
+        single_date_max_offset: 300,
         ..Cfg::default()
     };
     let (_, text) = gen_expr(ch, &cfg);
